@@ -782,5 +782,14 @@ func genC07(r *RNG, tier string, run int) *Trace {
 		}
 		t.Ops = append(t.Ops, op)
 	}
+	if run%4 == 1 && typ != "GSAP" && typ != "OSAP" || run%16 == 5 {
+		// write-fed: the caller copies chunks into the parser (one reused
+		// chunk buffer) and parses what is buffered, instead of Wrap
+		spec.Target, spec.Plan = "write", nil
+		for i := range t.Ops {
+			t.Ops[i].N = r.Pick(1, 2, 3, 8, 64, 1+r.Intn(bc.BufferSize), bc.BufferSize, bc.BufferSize+r.Intn(8))
+			t.Ops[i].X = r.Pick(0, 0, 1, 2)
+		}
+	}
 	return t
 }
